@@ -293,6 +293,64 @@ fn fill_units(kind: u8, ch: u16) -> [u16; 13] {
     }
 }
 
+/// one random slot stream (valid runs, stray long-name slots, deleted slots, labels, garbage, odd short entries)
+pub fn soup(rng: &mut Rng) -> Vec<Slot> {
+    let sfn: [u8; 11] = *b"SHORTN~1TXT";
+    let good = sfn_checksum(&sfn);
+    let len = 2 + rng.usize_below(22);
+    let mut slots: Vec<Slot> = Vec::new();
+    while slots.len() < len {
+        match rng.below(10) {
+            0 => {
+                let mut s = [0u8; 32];
+                rng.fill(&mut s);
+                if s[0] == 0 {
+                    s[0] = 1;
+                }
+                slots.push(s);
+            }
+            1 | 2 => {
+                // valid run with random name
+                let l = 1 + rng.usize_below(30);
+                let name: Vec<u16> = (0..l).map(|_| *rng.pick(&[0x61u16, 0x42, 0xe9, 0x4e2d, 0xD800, 0xDC00, 0x20, 0x2e, 0xFFFD])).collect();
+                let mut s = sfn;
+                s[0] = b'A' + rng.below(26) as u8;
+                s[1] = b'0' + rng.below(10) as u8;
+                slots.extend(good_run(&name, &s, *rng.pick(&[0x20u8, 0x10, 0x01, 0x27])));
+            }
+            3 | 4 => {
+                let ord = *rng.pick(&[1u8, 2, 3, 0x41, 0x42, 0x43, 0x54, 0x60, 0x14, 0x15, 0x7f, 0xC1]);
+                let chk = if rng.chance(1, 2) { good } else { rng.below(256) as u8 };
+                slots.push(lfn_slot(ord, chk, &fill_units(rng.below(3) as u8, 0x58)));
+            }
+            5 => {
+                let mut s = sfn_slot(&sfn, 0x20);
+                s[0] = 0xE5;
+                slots.push(s);
+            }
+            6 => slots.push(sfn_slot(b"LABEL      ", 0x08)),
+            7 => {
+                // out-of-range dates and times, odd attributes, 0x05 lead byte, lowercase flags
+                let mut s = sfn_slot(&sfn, *rng.pick(&[0x20u8, 0x10, 0x3f & !0x08, 0x40, 0x80, 0xC0 | 0x20]));
+                s[0] = *rng.pick(&[0x05u8, 0x41, 0x80, 0xFF, 0x20, 0x2e]);
+                s[12] = rng.below(256) as u8;
+                for k in 13..26 {
+                    s[k] = *rng.pick(&[0u8, 0xFF, 0x21, 0xBF, 0x7D]);
+                }
+                rng.fill(&mut s[26..32]);
+                slots.push(s);
+            }
+            _ => {
+                let mut s = sfn;
+                s[0] = b'A' + rng.below(26) as u8;
+                s[2] = b'0' + rng.below(10) as u8;
+                slots.push(sfn_slot(&s, 0x20));
+            }
+        }
+    }
+    slots
+}
+
 pub fn run(args: &Args, rep: &mut Report) {
     let seed = args.u64("seed", 1);
     let (shard, nshards) = args.shard();
@@ -435,57 +493,7 @@ pub fn run(args: &Args, rep: &mut Report) {
     // ---- (e) random slot soup
     let soups = if thorough { 12_000_000 } else { 80_000 } / nshards;
     for i in 0..soups {
-        let len = 2 + rng.usize_below(22);
-        let mut slots: Vec<Slot> = Vec::new();
-        while slots.len() < len {
-            match rng.below(10) {
-                0 => {
-                    let mut s = [0u8; 32];
-                    rng.fill(&mut s);
-                    if s[0] == 0 {
-                        s[0] = 1;
-                    }
-                    slots.push(s);
-                }
-                1 | 2 => {
-                    // valid run with random name
-                    let l = 1 + rng.usize_below(30);
-                    let name: Vec<u16> = (0..l).map(|_| *rng.pick(&[0x61u16, 0x42, 0xe9, 0x4e2d, 0xD800, 0xDC00, 0x20, 0x2e, 0xFFFD])).collect();
-                    let mut s = sfn;
-                    s[0] = b'A' + rng.below(26) as u8;
-                    s[1] = b'0' + rng.below(10) as u8;
-                    slots.extend(good_run(&name, &s, *rng.pick(&[0x20u8, 0x10, 0x01, 0x27])));
-                }
-                3 | 4 => {
-                    let ord = *rng.pick(&[1u8, 2, 3, 0x41, 0x42, 0x43, 0x54, 0x60, 0x14, 0x15, 0x7f, 0xC1]);
-                    let chk = if rng.chance(1, 2) { good } else { rng.below(256) as u8 };
-                    slots.push(lfn_slot(ord, chk, &fill_units(rng.below(3) as u8, 0x58)));
-                }
-                5 => {
-                    let mut s = sfn_slot(&sfn, 0x20);
-                    s[0] = 0xE5;
-                    slots.push(s);
-                }
-                6 => slots.push(sfn_slot(b"LABEL      ", 0x08)),
-                7 => {
-                    // out-of-range dates and times, odd attributes, 0x05 lead byte, lowercase flags
-                    let mut s = sfn_slot(&sfn, *rng.pick(&[0x20u8, 0x10, 0x3f & !0x08, 0x40, 0x80, 0xC0 | 0x20]));
-                    s[0] = *rng.pick(&[0x05u8, 0x41, 0x80, 0xFF, 0x20, 0x2e]);
-                    s[12] = rng.below(256) as u8;
-                    for k in 13..26 {
-                        s[k] = *rng.pick(&[0u8, 0xFF, 0x21, 0xBF, 0x7D]);
-                    }
-                    rng.fill(&mut s[26..32]);
-                    slots.push(s);
-                }
-                _ => {
-                    let mut s = sfn;
-                    s[0] = b'A' + rng.below(26) as u8;
-                    s[2] = b'0' + rng.below(10) as u8;
-                    slots.push(sfn_slot(&s, 0x20));
-                }
-            }
-        }
+        let slots = soup(&mut rng);
         judge(rep, &b, &slots, i % 3 == 0, &format!("soup:{}", i));
     }
     rep.sample(J::s("enum:3slots ord=[43, 02, 01] chk=0b111 fill=0 follower=0 (well-formed 3-slot run)"));
